@@ -10,7 +10,7 @@
    activation / deactivation schedules driven from the bracket-event handlers. *)
 From Coq Require Import List ZArith NArith Bool.
 Import ListNotations.
-From PyccoloV Require gen.Events model.RwFrag model.FragSem proofs.FragSemProofs model.FragLoop proofs.FragLoopProofs.
+From PyccoloV Require gen.Events model.RwFrag model.FragSem proofs.FragSemProofs model.FragLoop proofs.FragLoopProofs model.FragFun proofs.FragFunProofs.
 From PyccoloV Require Import gen.PyAst model.Tree model.Erase proofs.EraseSound.
 
 Theorem C10_guard_branches_agree : forall sc test b o l,
@@ -111,4 +111,64 @@ Example C10_frag_nonvacuous :
                    (FragLoop.linstr_module ex_c true ex_loop) (fun _ => None) FragSem.VNone [] in
   FragLoop.l_env (run pol_on) 100 = Some (FragSem.VInt 3) /\ FragLoop.l_env (run pol_off_after_first) 100 = Some (FragSem.VInt 3) /\
   length (FragLoop.l_log (run pol_on)) = 10%nat /\ length (FragLoop.l_log (run pol_off_after_first)) = 6%nat.
+Proof. vm_compute. repeat split; reflexivity. Qed.
+
+(* FUNCTIONS (model/FragFun.v): module-level definitions, return, calls standing as right-hand sides; recursion on fuel (call depth `d`);
+   handlers flip FUNCTION guards by an arbitrary policy `pol` of the stream delivered so far.  For ALL primitive operations,
+   subscriptions, guard settings, policies, depths, source modules `m` of the fragment and environments:
+   C10_fun_results - two runs of the instrumented program, under any two subscriptions / guard settings / guard schedules, end with the
+                     same exception (or none, or out of fuel) and the same bindings;
+   C10_fun_plain   - namely those of the program as it is (no rewriting at all);
+   C10_fun_stream  - the subscribed events arrive exactly as the gated reference `fref_module` writes them out: an invocation that starts
+                     while the function's guard is off delivers nothing from that body (the functions it calls speak for themselves,
+                     each according to its own guard), one that starts while it is on delivers its events also when the guard is
+                     switched off half-way and is closed by after_function_execution however it ends (return, falling off the end,
+                     exception); after a deactivation delivery resumes.
+   K-fun ties model, evaluator and reference to the real rewriter, CPython and the real runtime under guard rules. *)
+Theorem C10_fun_results : forall binop cmpop unop truth cval is_and c1 ge1 pol1 c2 ge2 pol2 m d r sv sv',
+  forallb FragFunProofs.fsrc_t m = true ->
+  FragFun.f_exc (FragFun.frun binop cmpop unop truth cval is_and c1 pol1 d (FragFun.finstr_module c1 ge1 m) r sv) =
+  FragFun.f_exc (FragFun.frun binop cmpop unop truth cval is_and c2 pol2 d (FragFun.finstr_module c2 ge2 m) r sv') /\
+  FragFun.f_env (FragFun.frun binop cmpop unop truth cval is_and c1 pol1 d (FragFun.finstr_module c1 ge1 m) r sv) =
+  FragFun.f_env (FragFun.frun binop cmpop unop truth cval is_and c2 pol2 d (FragFun.finstr_module c2 ge2 m) r sv').
+Proof. exact FragFunProofs.fun_results. Qed.
+Print Assumptions C10_fun_results.
+
+Theorem C10_fun_plain : forall binop cmpop unop truth cval is_and c ge pol c0 pol0 m d r sv sv',
+  forallb FragFunProofs.fsrc_t m = true ->
+  FragFun.f_exc (FragFun.frun binop cmpop unop truth cval is_and c pol d (FragFun.finstr_module c ge m) r sv) =
+  FragFun.f_exc (FragFun.frun binop cmpop unop truth cval is_and c0 pol0 d m r sv') /\
+  FragFun.f_env (FragFun.frun binop cmpop unop truth cval is_and c pol d (FragFun.finstr_module c ge m) r sv) =
+  FragFun.f_env (FragFun.frun binop cmpop unop truth cval is_and c0 pol0 d m r sv').
+Proof. exact FragFunProofs.fun_plain. Qed.
+Print Assumptions C10_fun_plain.
+
+Theorem C10_fun_stream : forall binop cmpop unop truth cval is_and c ge pol m d r sv,
+  forallb FragFunProofs.fsrc_t m = true ->
+  FragSem.filter_log c (FragFun.f_log (FragFun.frun binop cmpop unop truth cval is_and c pol d (FragFun.finstr_module c ge m) r sv)) =
+  FragSem.filter_log c (FragFun.fr_log (FragFun.fref_module binop cmpop unop truth cval is_and c pol ge d m r)).
+Proof. exact FragFunProofs.fun_stream. Qed.
+Print Assumptions C10_fun_stream.
+
+(* non-vacuity: `def f(p): return p + 1`, `a = f(1)`, `b = f(2)` with load_name, before_function_body and after_function_execution
+   subscribed.  With the guard of f on throughout: 8 events (per call: the load of `f`, before_function_body, the load of `p`,
+   after_function_execution); with the guard switched off as soon as the first after_function_execution has been delivered the second
+   invocation is silent (only the load of `f` at the call site, which is not in the body, arrives): 5 events; a = 2, b = 3 either way *)
+Definition ex_fun : list FragFun.fstmt :=
+  [FragFun.FDef 1 100 [101] [FragFun.FReturn 4 (Some (FragFun.RExp (FragSem.XBin 5 (FragSem.XName 6 101) kAdd (FragSem.XConst 9 (SInt 1%Z)))))];
+   FragFun.FAssign 10 [102] (FragFun.RCall 13 false false false (FragSem.XName 14 100) [FragSem.XConst 16 (SInt 1%Z)]);
+   FragFun.FAssign 17 [103] (FragFun.RCall 20 false false false (FragSem.XName 21 100) [FragSem.XConst 23 (SInt 2%Z)])]%N.
+Definition ex_fc : RwFrag.rcfg :=
+  {| RwFrag.sub := fun e => existsb (Events.event_eqb e) [Events.E_load_name; Events.E_before_function_body; Events.E_after_function_execution] |}.
+Definition fpol_on : list FragSem.entry -> N -> bool := fun _ _ => true.
+Definition fpol_off_after_first : list FragSem.entry -> N -> bool :=
+  fun log g => negb (N.eqb g 1 && existsb (fun en => Events.event_eqb (fst (fst en)) Events.E_after_function_execution) log).
+Example C10_fun_nonvacuous :
+  forallb FragFunProofs.fsrc_t ex_fun = true /\
+  let run pol := FragFun.frun FragSem.Py.binop FragSem.Py.cmpop FragSem.Py.unop FragSem.Py.truth FragSem.Py.cval FragSem.Py.is_and ex_fc pol 5
+                   (FragFun.finstr_module ex_fc true ex_fun) (fun _ => None) FragSem.VNone in
+  FragFun.f_env (run fpol_on) 102%N = Some (FragSem.VInt 2) /\ FragFun.f_env (run fpol_on) 103%N = Some (FragSem.VInt 3) /\
+  FragFun.f_env (run fpol_off_after_first) 102%N = Some (FragSem.VInt 2) /\ FragFun.f_env (run fpol_off_after_first) 103%N = Some (FragSem.VInt 3) /\
+  FragFun.f_exc (run fpol_on) = None /\
+  length (FragFun.f_log (run fpol_on)) = 8%nat /\ length (FragFun.f_log (run fpol_off_after_first)) = 5%nat.
 Proof. vm_compute. repeat split; reflexivity. Qed.
